@@ -27,7 +27,8 @@ ASSUMPTIONS = [
     'float ** (libm pow, complex results) is outside the model: such cases are counted as unspecified, not compared',
     'when several eager arguments fail with different kinds, which one surfaces is unspecified (gather timing)',
     'MIN/MAX with NaN arguments and LUT/LUTLI with NaN abscissae are unspecified (generator avoids NaN abscissae)',
-    'the strict-weak-order laws of < on non-NaN values are premises of the MIN/MAX theorem (proved for ints/bools)',
+    'the headline theorem is about contexts and literals that are canonical binary64 data: every generated case is tested for '
+    'it inside Coq (noncanonical_cases must be empty; harness/common/pyvals.py encodes Python floats canonically)',
 ]
 
 STATELESS = ['ADD', 'SUB', 'MUL', 'DIV', 'MOD', 'POW', 'IF', 'EQ', 'GT', 'GTE', 'LT', 'LTE', 'AND', 'OR', 'NOT', 'XOR',
@@ -323,13 +324,17 @@ def run_batch(ctx, res, cases, tag):
             c, t, d = dmeta[i]
             res['tie_failures'].append({'expression': text_of(t), 'get_deps': d, 'note': 'dependency set differs from the model'})
     outs = coq.eval_shards(ctx.workdir, 'c02' + tag, HEADER, shards,
-                           ['bad_model cases', 'bad_spec cases', 'unspecified_cases cases'])
+                           ['bad_model cases', 'bad_spec cases', 'unspecified_cases cases', 'noncanonical_cases cases'])
     unspec = 0
     for (rc, lists, err), m in zip(outs, smeta):
-        if rc != 0 or len(lists) != 3:
+        if rc != 0 or len(lists) != 4:
             res['tie_failures'].append('coqc failed on a case shard: %s' % err[-600:])
             continue
-        bad_model, bad_spec, un = lists
+        bad_model, bad_spec, un, noncanon = lists
+        for i in noncanon:
+            c, t, o = m[i]
+            res['tie_failures'].append({'expression': text_of(t), 'context': _ctx_json(c),
+                                        'note': 'input outside the canonicity premise of the theorem (encoding error in the harness)'})
         unspec += len(un)
         for i in bad_model:
             c, t, o = m[i]
@@ -452,7 +457,9 @@ LEVEL_TEXT = (
     'Coq theorems over a Gallina model of expression evaluation (all 37 stateless functions, literals, $id, $, @id, the '
     'error taxonomy): for every expression tree and context the code-shaped evaluator (gather-eager functions, short-circuit '
     'loops, MIN/MAX/LUT scans, exception catching) equals the denotational reference semantics (induction on the tree; MIN/MAX '
-    'via a generic "scan keeps the first unbeaten element of a strict weak order" theorem); laziness of IF/AND/OR/DEFAULT; '
+    'via a generic "scan keeps the first unbeaten element of a strict weak order" theorem, the order laws of Python\'s exact '
+    'mixed int/float/bool comparison being proved for all non-NaN canonical binary64 values, and canonicity proved to be '
+    'preserved by every arithmetic operation of the model); laziness of IF/AND/OR/DEFAULT; '
     'eager functions have no value when an argument has none; domain errors (DIV/MOD by zero, non-finite FLOOR/CEIL/BIT*/SH*, '
     'negative shifts) never yield a value; port classification; evaluation depends only on the reported dependencies. '
     'The function registry (arity, DEPS, eager/lazy shape, SGN shape) is regenerated from the source on every run and the '
@@ -462,7 +469,7 @@ LEVEL_TEXT = (
 LEVEL_NOTE = (
     'Trusted: Coq kernel incl. vm_compute; translator functable.py; the correspondence harness/generator; CPython numeric '
     'semantics are modelled (Base/PyNum.v, pure SpecFloat arithmetic, no float axioms) and tied only by the correspondence. '
-    'Premises of the main theorem: strict-weak-order laws of < on non-NaN values (proved for the int/bool fragment), no NaN '
-    'reaching MIN/MAX/SGN. Unspecified: float pow, mixed failure kinds under gather. No axioms (Print Assumptions: closed).'
+    'Premises of the main theorem (all decidable, about the inputs): port values and literals are canonical binary64 data '
+    '(tested on every case inside Coq), no NaN reaches MIN/MAX/SGN. Unspecified: float pow, mixed failure kinds under gather. No axioms (Print Assumptions: closed).'
 )
 TECHNIQUE = 'Coq proof by structural induction over expression trees; registry regenerated by translator; vm_compute correspondence'
